@@ -1,5 +1,6 @@
 import numpy as np
 from ldpc import BpOsdDecoder
+from ldpc.mod2 import rank
 from panqec.codes import StabilizerCode
 from panqec.error_models import BaseErrorModel
 from panqec.decoders import BaseDecoder
@@ -77,6 +78,12 @@ class BeliefPropagationOSDDecoder(BaseDecoder):
 
         return new_probs
 
+    def get_osd_order(self, H) -> int:
+        """OSD order to use with parity-check matrix H: combination sweep
+        only ranges over the n - rank(H) columns outside the information
+        set, and ldpc writes out of bounds if asked for more."""
+        return min(self._osd_order, H.shape[1] - rank(H))
+
     def initialize_decoders(self):
         is_css = self.code.is_css
 
@@ -89,7 +96,7 @@ class BeliefPropagationOSDDecoder(BaseDecoder):
                 ms_scaling_factor=0.,
                 schedule="serial",
                 osd_method="osd_cs",  # Choose from: "osd_e", "osd_cs", "osd0"
-                osd_order=self._osd_order
+                osd_order=self.get_osd_order(self.code.Hx)
             )
 
             self.x_decoder = BpOsdDecoder(
@@ -100,7 +107,7 @@ class BeliefPropagationOSDDecoder(BaseDecoder):
                 ms_scaling_factor=0.,
                 schedule="serial",
                 osd_method="osd_cs",  # Choose from: "osd_e", "osd_cs", "osd0"
-                osd_order=self._osd_order
+                osd_order=self.get_osd_order(self.code.Hz)
             )
 
         else:
@@ -111,7 +118,7 @@ class BeliefPropagationOSDDecoder(BaseDecoder):
                 bp_method=self._bp_method,
                 ms_scaling_factor=0.,
                 osd_method="osd_cs",  # Choose from: "osd_e", "osd_cs", "osd0"
-                osd_order=self._osd_order
+                osd_order=self.get_osd_order(self.code.stabilizer_matrix)
             )
         self._initialized = True
 
